@@ -9,7 +9,7 @@ from vp import core, gen
 
 PROP_ID = 'C05'
 LEVEL = 'exploration'
-BUDGET = {'quick': 3000, 'thorough': 100000}
+BUDGET = {'quick': 9000, 'thorough': 100000}
 RULE = ('Hypothesis draws (fchans,tchans,df,dt,fch1,orientation,t_start,construction route,'
         'unit spelling) with df >= 4096 ulp(fch1), plus per-case offsets delta in (-0.49,0.49), '
         'out-of-band channel numbers and a drifting Gaussian signal given in channel units; '
@@ -165,10 +165,14 @@ def run_case(case, ctx):
     idx = np.arange(N)
     ok, f_all = core.call(obs, 'get_frequency', fr.get_frequency, idx)
     if ok:
-        if np.max(np.abs(np.asarray(f_all) - ref)) > ftol:
+        if np.shape(f_all) != idx.shape:
+            obs.fail('get_frequency_shape', f'{np.shape(f_all)} for {idx.shape} indices')
+        elif np.max(np.abs(np.asarray(f_all) - ref)) > ftol:
             obs.fail('get_frequency', f'{np.max(np.abs(np.asarray(f_all) - ref))}')
         ok, back = core.call(obs, 'get_index', fr.get_index, f_all)
-        if ok and not np.array_equal(np.asarray(back), idx):
+        if ok and np.shape(back) != idx.shape:
+            obs.fail('roundtrip_index_shape', f'{np.shape(back)} for {idx.shape} frequencies')
+        elif ok and not np.array_equal(np.asarray(back), idx):
             bad = int(np.flatnonzero(np.asarray(back) != idx)[0])
             obs.fail('roundtrip_index', f'channel {bad} -> {np.asarray(back)[bad]}')
     # scalar calls, plain and Quantity, nearest channel incl. out-of-band
